@@ -17,7 +17,7 @@ DateClasses == {"ok", "leap_ok", "nonstr", "null", "noZ", "noT", "trailing", "wr
 ClassesOf(f) ==
   CASE f = "env"        -> {"ok", "extra_top", "no_signatures", "no_signed", "sigs_not_dict", "sigs_null", "not_dict"}
     [] f = "signedkind" -> {"dict", "list", "str", "int", "null"}
-    [] f = "sigvals"    -> {"none", "raw_ok", "gpg_ok", "gpgfp_ok", "bad_value", "bad_value_nondict", "bad_gpg_headers", "nonkey_name_ok_value"}
+    [] f = "sigvals"    -> {"none", "raw_ok", "gpg_ok", "gpgfp_ok", "bad_value", "bad_value_nondict", "bad_gpg_headers", "hex_as_char_list", "nonkey_name_ok_value"}
     [] f = "type"       -> {"root", "key_mgr", "unsupported", "nonstr", "missing", "uppercase"}
     [] f = "spec"       -> {"ok", "nonstr", "missing", "nondotted", "null"}
     [] f = "deleg"      -> {"empty", "one_ok", "two_ok", "thr_gt_keys", "emptykeys", "thr_huge",
